@@ -299,11 +299,15 @@ def c10(prog, rep):
     rep.broken_if(('qvector_s', 'objsize') not in sm.fields, 'qvector_s.objsize not found')
     IX.rule_idx(prog, rep)
     IX.rule_vcount(prog, rep)
+    IX.rule_helper_index(prog, rep)
+    IX.rule_growth(prog, rep)
     C.rule_m1(prog, rep, ['src/containers/qvector.c'])
     rep.floor('V1', 3)
     rep.floor('IDX', 8)
     rep.floor('VC', 3)
-    rep.floor('M1', 3)
+    rep.floor('V2', 5)
+    rep.floor('G1', 3)
+    rep.floor('M1', 2)
     rep.explanation = (
         'V1 configuration immutability (who-may-write over all units): objsize/options/initnum are written by qvector() only. IDX: '
         'for each of the 10 element-address computations vector->data + E*objsize, must-facts from dominating comparisons (each '
